@@ -9,6 +9,7 @@ import json
 import random
 
 from . import bech32
+from .implworld import ImplWorld, decode_msg
 from .procs import canon_msgs, err_kind, outcome
 
 NS = 10 ** 9
@@ -145,9 +146,13 @@ def variant_of(msg):
 class History:
     """one history: boot + events, model-led, compared call by call"""
 
-    def __init__(self, harness, driver, seed, profile, stats, build="osmosis", monitors=None):
+    def __init__(self, harness, driver, seed, profile, stats, build="osmosis", monitors=None, mode="model"):
         self.h = harness
         self.d = driver
+        self.mode = mode
+        self.iw = None
+        self.prev = None
+        self.findings = []
         self.rng = random.Random(seed)
         self.seed = seed
         self.profile = profile
@@ -211,8 +216,34 @@ class History:
             raise
         self.h.call({"op": "commit" if tx["committed"] else "rollback"})
 
+    def _users(self):
+        return self.su.users + [self.su.contract_like, self.su.hook_staker(), self.su.contract, self.su.admin]
+
+    def _impl_dump(self):
+        dh = self.h.call({"op": "dump", "users": self._users()})
+        self.stats.dump_compares += 1
+        self.prev = self.dump
+        self.dump = {"contract": dh["ok"], "ledger": self.iw.ledger_dump(self.su.accounts(), self.su.denoms())}
+        self.time = self.iw.time
+        self.height = self.iw.height
+
+    def _record(self, ev, tx):
+        """normalised view of one transaction for the monitors"""
+        calls = []
+        for c in tx["calls"]:
+            r = c["result"]
+            o = outcome(r)
+            msgs = []
+            if o == "ok":
+                raw = r["ok"]["msgs"] if "msgs" in r["ok"] else canon_msgs(r["ok"])
+                msgs = [decode_msg(m) for m in raw]
+            calls.append({"entry": c["entry"], "outcome": o, "kind": err_kind(r), "msgs": msgs,
+                          "sender": c.get("sender"), "funds": c.get("funds"), "msg": c.get("msg"),
+                          "panic": r.get("panic")})
+        return {"ev": ev, "committed": tx["committed"], "calls": calls, "before": self.prev, "after": self.dump}
+
     def _sync_dump(self):
-        users = self.su.users + [self.su.contract_like, self.su.hook_staker(), self.su.contract, self.su.admin]
+        users = self._users()
         dm = self.d.call({"op": "dump", "users": users, "accounts": self.su.accounts(), "denoms": self.su.denoms()})
         dh = self.h.call({"op": "dump", "users": users})
         self.stats.dump_compares += 1
@@ -230,6 +261,7 @@ class History:
                 if isinstance(a, dict) and isinstance(b, dict) and outcome(a) == outcome(b) and outcome(a) in ("err", "panic"):
                     continue
                 raise Divergence("state." + key, {"model": a, "impl": b})
+        self.prev = self.dump
         self.dump = dm
         self.time = int(dm["ledger"]["time"])
         self.height = dm["ledger"]["height"]
@@ -242,6 +274,14 @@ class History:
                "sender": su.admin, "time": str(self.time), "height": self.height, "tx": 0,
                "msg": su.instantiate_msg()}
         self.events.append({"boot": req})
+        if self.mode == "impl":
+            self.iw = ImplWorld(self.h, su.contract, su.chain_prefix, self.time, self.height)
+            tx = self.iw.run_exec(su.admin, [], su.instantiate_msg(), None, 0, entry="instantiate")
+            self.stats.calls += len(tx["calls"])
+            if not tx["committed"]:
+                return False
+            self._impl_dump()
+            return True
         tx = self.d.call(req)
         self._replay_calls(tx)
         self.stats.bump(self.stats.configs, "oracle=%s treasury=%s fee=%s eqprefix=%s bp=%s ub=%s" % (
@@ -259,14 +299,25 @@ class History:
         label = kind + (":" + variant_of(ev["msg"]) if "msg" in ev else "")
         self.stats.bump(self.stats.by_event, label)
         self.tx_index = ev.get("tx", 0) if kind == "exec" else 0
-        tx = self.d.call({"op": "event", "ev": ev})
-        if "bad" in tx:
-            raise RuntimeError("driver rejected %r: %r" % (ev, tx))
-        if kind in ("exec", "hook", "ack", "timeout", "stray_ack", "stray_timeout"):
-            self._replay_calls(tx)
-        self._sync_dump()
-        for m in self.monitors:
-            m(self, ev, tx)
+        if self.mode == "impl":
+            tx = self.iw.event(ev)
+            self.stats.calls += len(tx["calls"])
+            for c in tx["calls"]:
+                var = variant_of(c.get("msg")) if c["entry"] == "execute" else c["entry"]
+                self.stats.bump(self.stats.by_outcome, "%s:%s" % (var, outcome(c["result"])))
+                self.stats.signatures.add((var, outcome(c["result"]), err_kind(c["result"])))
+            self._impl_dump()
+        else:
+            tx = self.d.call({"op": "event", "ev": ev})
+            if "bad" in tx:
+                raise RuntimeError("driver rejected %r: %r" % (ev, tx))
+            if kind in ("exec", "hook", "ack", "timeout", "stray_ack", "stray_timeout"):
+                self._replay_calls(tx)
+            self._sync_dump()
+        if self.monitors:
+            rec = self._record(ev, tx)
+            for m in self.monitors:
+                m(self, rec)
         return tx
 
     # ----- views of the model state -----
